@@ -42,6 +42,9 @@ func boundedFiles(prop string) []string {
 
 var boundedHdr = regexp.MustCompile(`(?m)^// (bounded|dir|bound): (.*)$`)
 
+// boundedTier is the tier of the running check ("quick" or "thorough").
+var boundedTier = "quick"
+
 func runBounded(file string) boundedResult {
 	res := boundedResult{File: file}
 	src, err := os.ReadFile(file)
@@ -79,9 +82,14 @@ func runBounded(file string) boundedResult {
 	ov, _ := json.Marshal(map[string]any{"Replace": map[string]string{filepath.Join(abs, "zz_govc_bounded_test.go"): testFile}})
 	ovFile := filepath.Join(tmp, "ov.json")
 	_ = os.WriteFile(ovFile, ov, 0o644)
-	cmd := exec.Command("go", "test", "-overlay", ovFile, "-vet=off", "-count=1", "-v", "-timeout", "120s", "-run", "^TestGovcBounded$", "./"+dir)
+	// the thorough tier lets a stand-in add a seeded random exploration to its fixed grid
+	limit := "120s"
+	if boundedTier == "thorough" {
+		limit = "900s"
+	}
+	cmd := exec.Command("go", "test", "-overlay", ovFile, "-vet=off", "-count=1", "-v", "-timeout", limit, "-run", "^TestGovcBounded$", "./"+dir)
 	cmd.Dir = repoDir()
-	cmd.Env = append(os.Environ(), "GOFLAGS=-mod=mod", "GOPROXY=off", "GOSUMDB=off", "GOTOOLCHAIN=local")
+	cmd.Env = append(os.Environ(), "GOFLAGS=-mod=mod", "GOPROXY=off", "GOSUMDB=off", "GOTOOLCHAIN=local", "GOVC_TIER="+boundedTier)
 	out, _ := cmd.CombinedOutput()
 	text := string(out)
 	for _, ln := range strings.Split(text, "\n") {
